@@ -2,6 +2,7 @@ package main
 
 import (
 	"context"
+	"encoding/json"
 	"fmt"
 	"regexp"
 	"sort"
@@ -28,8 +29,25 @@ type coldef struct {
 
 type col5 [6]string // name, type, notnull, default, generated, comment
 
-// idx3 is an index of the model: name, unique ("t" / "f"), key parts as written (lower case, no quotes, "c,x desc")
-type idx3 [3]string
+// idx3 is an index of the model: name, unique ("t" / "f"), key parts as written (lower case, no quotes, "c,x desc"); it travels as
+// [name, unique, [[column, "asc" | "desc"], ...]]
+type idx3 struct{ Name, Uniq, Parts, Kind string } // Kind: "c" = owned by a UNIQUE constraint (PostgreSQL), otherwise "i"
+
+func (i idx3) MarshalJSON() ([]byte, error) {
+	parts := [][2]string{}
+	for _, p := range strings.Split(i.Parts, ",") {
+		if f := strings.Fields(p); len(f) == 1 {
+			parts = append(parts, [2]string{f[0], "asc"})
+		} else if len(f) > 1 {
+			parts = append(parts, [2]string{f[0], f[1]})
+		}
+	}
+	kind := i.Kind
+	if kind == "" {
+		kind = "i"
+	}
+	return json.Marshal([]any{i.Name, i.Uniq, parts, kind})
+}
 
 var colTypes = map[string][]schema.Type{
 	"mysql": {
@@ -94,6 +112,8 @@ var (
 	reCommentOn = regexp.MustCompile(`^COMMENT ON COLUMN (?:` + reIdent + `\.)?` + reIdent + `\.(` + reIdent + `) IS '([^']*)'$`)
 	reColClause = regexp.MustCompile(`^(ADD COLUMN|DROP COLUMN|MODIFY COLUMN|ALTER COLUMN) (` + reIdent + `) ?(.*)$`)
 	reIdxAdd    = regexp.MustCompile(`^ADD (UNIQUE )?(?:INDEX|KEY) (` + reIdent + `) ?\((.*)\)$`)
+	reConstAdd  = regexp.MustCompile(`^ADD CONSTRAINT (` + reIdent + `) UNIQUE ?\((.*)\)$`)
+	reConstDrop = regexp.MustCompile(`^DROP CONSTRAINT (` + reIdent + `)$`)
 	reIdxDrop   = regexp.MustCompile(`^DROP INDEX (?:IF EXISTS )?(?:` + reIdent + `\.)?(` + reIdent + `)$`)
 	reIdxCreate = regexp.MustCompile(`^CREATE (UNIQUE )?INDEX (?:IF NOT EXISTS )?(` + reIdent + `) ON (?:` + reIdent + `\.)?` + reIdent + ` ?\((.*)\)$`)
 )
@@ -179,10 +199,10 @@ func colEvents(cid int, cmd string) []ev {
 		return []ev{{"ev": "clause", "c": cid, "op": "comment", "col": col5{unq(m[1]), "", "", "", "", m[2]}, "sql": flat}, {"ev": "stmtend", "c": cid}}
 	}
 	if m := reIdxCreate.FindStringSubmatch(flat); m != nil {
-		return []ev{{"ev": "clause", "c": cid, "op": "addidx", "idx": idx3{unq(m[2]), uniq(m[1]), normParts(m[3])}, "sql": flat}, {"ev": "stmtend", "c": cid}}
+		return []ev{{"ev": "clause", "c": cid, "op": "addidx", "idx": idx3{unq(m[2]), uniq(m[1]), normParts(m[3]), "i"}, "sql": flat}, {"ev": "stmtend", "c": cid}}
 	}
 	if m := reIdxDrop.FindStringSubmatch(flat); m != nil {
-		return []ev{{"ev": "clause", "c": cid, "op": "dropidx", "idx": idx3{unq(m[1])}, "sql": flat}, {"ev": "stmtend", "c": cid}}
+		return []ev{{"ev": "clause", "c": cid, "op": "dropidx", "idx": idx3{Name: unq(m[1])}, "sql": flat}, {"ev": "stmtend", "c": cid}}
 	}
 	m := reAlter.FindStringSubmatch(flat)
 	if m == nil {
@@ -191,11 +211,19 @@ func colEvents(cid int, cmd string) []ev {
 	var es []ev
 	for _, cl := range splitClauses(m[2]) {
 		if im := reIdxAdd.FindStringSubmatch(cl); im != nil {
-			es = append(es, ev{"ev": "clause", "c": cid, "op": "addidx", "idx": idx3{unq(im[2]), uniq(im[1]), normParts(im[3])}, "sql": cl})
+			es = append(es, ev{"ev": "clause", "c": cid, "op": "addidx", "idx": idx3{unq(im[2]), uniq(im[1]), normParts(im[3]), "i"}, "sql": cl})
 			continue
 		}
 		if im := reIdxDrop.FindStringSubmatch(cl); im != nil {
-			es = append(es, ev{"ev": "clause", "c": cid, "op": "dropidx", "idx": idx3{unq(im[1])}, "sql": cl})
+			es = append(es, ev{"ev": "clause", "c": cid, "op": "dropidx", "idx": idx3{Name: unq(im[1])}, "sql": cl})
+			continue
+		}
+		if im := reConstAdd.FindStringSubmatch(cl); im != nil {
+			es = append(es, ev{"ev": "clause", "c": cid, "op": "addconst", "idx": idx3{unq(im[1]), "t", normParts(im[2]), "c"}, "sql": cl})
+			continue
+		}
+		if im := reConstDrop.FindStringSubmatch(cl); im != nil {
+			es = append(es, ev{"ev": "clause", "c": cid, "op": "dropconst", "idx": idx3{Name: unq(im[1])}, "sql": cl})
 			continue
 		}
 		cm := reColClause.FindStringSubmatch(cl)
@@ -240,6 +268,18 @@ func colEvents(cid int, cmd string) []ev {
 		}
 		es = append(es, e)
 	}
+	// Neither engine runs the clauses of one ALTER TABLE in the order they are written: what is dropped goes first, indexes are
+	// built last (MySQL builds the new definition from the drop, column and key lists; PostgreSQL works in passes).
+	rank := func(e ev) int {
+		switch e["op"] {
+		case "drop", "dropidx", "dropconst":
+			return 0
+		case "addidx", "addconst":
+			return 2
+		}
+		return 1
+	}
+	sort.SliceStable(es, func(i, j int) bool { return rank(es[i]) < rank(es[j]) })
 	return append(es, ev{"ev": "stmtend", "c": cid})
 }
 
@@ -256,13 +296,19 @@ func runIdxMod() {
 	type idef struct {
 		unique bool
 		parts  string // "c", "x", "c,x", "x,c", "c desc", "c,x desc"
+		constr bool   // PostgreSQL: the index belongs to a UNIQUE constraint of the same name
 	}
 	var defs []*idef
 	defs = append(defs, nil) // index absent
 	for _, u := range []bool{false, true} {
 		for _, p := range []string{"c", "x", "c,x", "x,c", "c desc", "c,x desc"} {
-			defs = append(defs, &idef{u, p})
+			defs = append(defs, &idef{u, p, false})
 		}
+	}
+	// PostgreSQL only: unique constraints (no descending parts)
+	ndefs := len(defs)
+	for _, p := range []string{"c", "x", "c,x", "x,c"} {
+		defs = append(defs, &idef{true, p, true})
 	}
 	build := func(dialect string, i, j *idef) (*schema.Table, []col5, []idx3) {
 		s := schema.New(marker)
@@ -286,20 +332,32 @@ func runIdxMod() {
 				part := &schema.IndexPart{C: c, Desc: len(f) > 1}
 				idx.AddParts(part)
 			}
+			kind := "i"
+			if d.constr {
+				idx.AddAttrs(postgres.UniqueConstraint(name))
+				kind = "c"
+			}
 			t.AddIndexes(idx)
-			is = append(is, idx3{name, map[bool]string{true: "t", false: "f"}[d.unique], d.parts})
+			is = append(is, idx3{name, map[bool]string{true: "t", false: "f"}[d.unique], d.parts, kind})
 		}
 		sort.Slice(t.Indexes, func(a, b int) bool { return t.Indexes[a].Name < t.Indexes[b].Name })
-		sort.Slice(is, func(a, b int) bool { return is[a][0] < is[b][0] })
+		sort.Slice(is, func(a, b int) bool { return is[a].Name < is[b].Name })
 		return t, ks, is
 	}
-	jdefs := []*idef{nil, {false, "x"}, {true, "x,c"}}
+	jdefs := []*idef{nil, {false, "x", false}, {true, "x,c", false}}
 	for _, dialect := range []string{"mysql", "postgres"} {
 		for a, from := range defs {
 			for b, to := range defs {
 				for ja, jfrom := range jdefs {
 					for jb, jto := range jdefs {
 						if a == b && ja == jb {
+							continue
+						}
+						if dialect == "mysql" && (a >= ndefs || b >= ndefs) {
+							continue
+						}
+						// the community differ does not tell a unique index from a unique constraint with the same columns: nothing to plan
+						if from != nil && to != nil && from.constr != to.constr && from.parts == to.parts && from.unique == to.unique {
 							continue
 						}
 						if (ja != 0 || jb != 0) && (a+b+ja+2*jb)%4 != 0 {
@@ -331,6 +389,89 @@ func runIdxMod() {
 	}
 }
 
+// Columns dropped together with indexes that use them: table t(id, a, b, c) with index i over some of a, b, c; the desired table has
+// lost column b (or b and a) and has either no index i, the index MySQL would leave behind (the old parts without the dropped
+// columns), or another one. What the engines do by themselves when a column goes away is part of ColCatalog.tla.
+func runIdxCol() {
+	build := func(dialect string, cols []string, unique bool, parts string) (*schema.Table, []col5, []idx3) {
+		s := schema.New(marker)
+		t := schema.NewTable("t").SetSchema(s)
+		idT := colTypes[dialect][0]
+		var ks []col5
+		for _, n := range cols {
+			t.AddColumns(&schema.Column{Name: n, Type: &schema.ColumnType{Type: idT, Raw: formatType(dialect, idT)}})
+			ks = append(ks, col5{n, formatType(dialect, idT), "t", "", "", ""})
+		}
+		t.SetPrimaryKey(schema.NewPrimaryKey(t.Columns[0]))
+		is := []idx3{}
+		if parts != "" {
+			idx := schema.NewIndex("i").SetUnique(unique)
+			for _, p := range strings.Split(parts, ",") {
+				f := strings.Fields(p)
+				c, _ := t.Column(f[0])
+				idx.AddParts(&schema.IndexPart{C: c, Desc: len(f) > 1})
+			}
+			t.AddIndexes(idx)
+			is = append(is, idx3{"i", map[bool]string{true: "t", false: "f"}[unique], parts, "i"})
+		}
+		return t, ks, is
+	}
+	without := func(parts string, gone map[string]bool) string {
+		var out []string
+		for _, p := range strings.Split(parts, ",") {
+			if !gone[strings.Fields(p)[0]] {
+				out = append(out, p)
+			}
+		}
+		return strings.Join(out, ",")
+	}
+	for _, dialect := range []string{"mysql", "postgres"} {
+		for _, unique := range []bool{false, true} {
+			for _, parts := range []string{"b", "a,b", "b,a", "a,b,c", "b desc,c", "a,c"} {
+				for _, gone := range [][]string{{"b"}, {"a", "b"}} {
+					g := map[string]bool{}
+					keep := []string{"id"}
+					for _, n := range gone {
+						g[n] = true
+					}
+					for _, n := range []string{"a", "b", "c"} {
+						if !g[n] {
+							keep = append(keep, n)
+						}
+					}
+					seen := map[string]bool{}
+					for _, after := range []string{"", without(parts, g), "c"} {
+						if seen[after] {
+							continue
+						}
+						seen[after] = true
+						for _, updown := range []bool{false, true} {
+							fromT, startC, startI := build(dialect, []string{"id", "a", "b", "c"}, unique, parts)
+							toT, endC, endI := build(dialect, keep, unique, after)
+							dir, wantC, wantI := "idxcol-up", endC, endI
+							if updown {
+								dir, wantC, wantI = "idxcol-updown", startC, startI
+							}
+							uses := false
+							for _, p := range strings.Split(parts, ",") {
+								uses = uses || g[strings.Fields(p)[0]]
+							}
+							sc := &scenario{ID: len(cases) + 1, Dialect: dialect, N: 1, Req: "realm", Dir: dir,
+								Roles: fmt.Sprintf("drop %v: %v -> %v", gone, startI, endI),
+								Extra: map[string]any{"index_uses_dropped_column": uses, "index_keeps_a_column": without(parts, g) != "",
+									"desired_index": map[bool]string{true: "none", false: map[bool]string{true: "what is left of it", false: "another"}[after == without(parts, g)]}[after == ""]}}
+							cases = append(cases, sc)
+							sc.First = line + 1
+							emit(ev{"ev": "reset", "c": sc.ID, "dialect": dialect, "start": startC, "want": wantC, "startidx": startI, "wantidx": wantI})
+							planAndReplay(sc, dialect, fromT, toT, updown, false)
+						}
+					}
+				}
+			}
+		}
+	}
+}
+
 func runColMod() {
 	var defs []coldef
 	for t := 0; t < 3; t++ {
@@ -353,8 +494,8 @@ func runColMod() {
 				if from == to {
 					continue
 				}
-				for v, with := range []string{"alone", "add-column", "drop-column"} {
-					if v > 0 && (i+j)%3 != v-1 && (i+2*j)%5 != 0 {
+				for v, with := range []string{"alone", "add-column", "drop-column", "drop-earlier-column"} {
+					if v > 0 && (i+j)%3 != (v-1)%3 && (i+2*j)%5 != 0 {
 						continue // the companions on part of the pairs
 					}
 					for _, updown := range []bool{false, true} {
@@ -366,6 +507,15 @@ func runColMod() {
 	}
 }
 
+func colOf(ks []col5, name string) []string {
+	for _, k := range ks {
+		if k[0] == name {
+			return k[1:]
+		}
+	}
+	return nil
+}
+
 func colmodScenario(dialect string, from, to coldef, with string, updown bool) {
 	s := schema.New(marker)
 	idT := colTypes[dialect][0]
@@ -375,6 +525,12 @@ func colmodScenario(dialect string, from, to coldef, with string, updown bool) {
 		t.AddColumns(id)
 		t.SetPrimaryKey(schema.NewPrimaryKey(id))
 		ks := []col5{{"id", formatType(dialect, idT), "t", "", "", ""}}
+		if extra == "y-first" {
+			// the dropped column is declared before the modified one: its drop comes first in the change list
+			c, k := mkColumn(dialect, "y", coldef{0, false, "7", "", "old"})
+			t.AddColumns(c)
+			ks = append(ks, k)
+		}
 		c, k := mkColumn(dialect, "c", d)
 		t.AddColumns(c)
 		ks = append(ks, k)
@@ -396,6 +552,8 @@ func colmodScenario(dialect string, from, to coldef, with string, updown bool) {
 		toX = "x"
 	case "drop-column":
 		fromX = "y"
+	case "drop-earlier-column":
+		fromX = "y-first"
 	}
 	fromT, startK := mkTable(from, fromX)
 	toT, endK := mkTable(to, toX)
@@ -404,7 +562,7 @@ func colmodScenario(dialect string, from, to coldef, with string, updown bool) {
 	if updown {
 		dir, want = "colmod-updown", startK
 	}
-	sc := &scenario{ID: len(cases) + 1, Dialect: dialect, N: 1, Req: "realm", Dir: dir, Roles: fmt.Sprintf("%s: %v -> %v", with, startK[1][1:], endK[1][1:])}
+	sc := &scenario{ID: len(cases) + 1, Dialect: dialect, N: 1, Req: "realm", Dir: dir, Roles: fmt.Sprintf("%s: %v -> %v", with, colOf(startK, "c"), colOf(endK, "c"))}
 	cases = append(cases, sc)
 	sc.First = line + 1
 	emit(ev{"ev": "reset", "c": sc.ID, "dialect": dialect, "start": startK, "want": want, "startidx": []idx3{}, "wantidx": []idx3{}})
